@@ -400,11 +400,32 @@ func init() {
 					} else {
 						r.OK(s.fn, construct+": no early exit", "the loop is left only when exhausted or on an error path", r.P(anc[0]))
 					}
-					allow := func(g Guard) bool {
+					allow1 := func(g Guard) bool {
 						for _, sc := range s.skips {
 							if sc.match(g) {
 								return true
 							}
+						}
+						return false
+					}
+					allow := func(g Guard) bool {
+						if allow1(g) {
+							return true
+						}
+						// a predicate helper: the skip edge is its short-circuit outcome, and every operand that can
+						// have caused it is a reviewed skip condition
+						ds := e.helperDisjuncts(g)
+						if p, isPhi := g.Cond.Instr.(*ssa.Phi); isPhi && g.Cond.Op == "phi" {
+							// a named condition (`ok := a && b && c; if !ok { continue }`)
+							ds = shortCircuitDisjuncts(fa, p, g.Pos)
+						}
+						if len(ds) > 0 {
+							for _, d := range ds {
+								if !allow1(d) {
+									return false
+								}
+							}
+							return true
 						}
 						return false
 					}
